@@ -49,30 +49,23 @@ def main():
     for f in ("patch.diff", "demo.py", "notes.md"):
         if os.path.exists(os.path.join(seed, f)):
             shutil.copy(os.path.join(seed, f), os.path.join(dst, f))
-    # --- run the checks against it
-    rc, out = sh("git status --short", cwd="/repo")
-    if out.strip():
-        print("/repo is dirty; refusing", out)
+    # --- run the checks against it (in a scratch worktree through VERIF_REPO; /repo is not touched)
+    sys.path.insert(0, os.path.join(ROOT, "tools"))
+    import seed_matrix
+
+    json.dump(dict(id=sid, property=prop), open(os.path.join(dst, "meta.json"), "w"))
+    _, results = seed_matrix.evaluate(sid, [prop] + extra, jobs=16)
+    if "error" in results:
+        print("evaluation failed:", results["error"])
         return 2
-    rc, out = sh(f"git apply {dst}/patch.diff", cwd="/repo")
-    if rc != 0:
-        print("patch does not apply to /repo:", out)
-        return 2
-    results = {}
-    try:
-        for p in [prop] + extra:
-            t0 = time.time()
-            rc, out = sh(f"./check {p} --tier quick", cwd=ROOT, timeout=3600)
-            vio = [l for l in out.splitlines() if l.startswith("VIOLATION") or l.strip().startswith("violated:")]
-            results[p] = dict(exit=rc, wall_s=round(time.time() - t0, 1), lines=vio[:6])
-            print(f"check {p}: exit {rc} in {results[p]['wall_s']}s; {len([l for l in vio if l.startswith('VIOLATION')])} VIOLATION lines")
-            for l in vio[:4]:
-                print("    ", l[:260])
-    finally:
-        sh("git checkout -- .", cwd="/repo")
+    for p, r in results.items():
+        print(f"check {p}: exit {r['exit']} in {r['wall_s']}s")
+        for l in r["lines"][:4]:
+            print("    ", l[:260])
     notes = open(os.path.join(dst, "notes.md")).read() if os.path.exists(os.path.join(dst, "notes.md")) else ""
     meta = dict(id=sid, property=prop, needs_to_manifest=notes[:1500], confirmed=dict(tests_pass_with_change=tests_pass, demo_fails_with_change=rc_d1 != 0, demo_passes_without=rc_d0 == 0),
                 ran=ran, checks=results, caught_by=[p for p, r in results.items() if r["exit"] == 1])
+    meta["evaluated_at_verif_commit"] = sh("git rev-parse --short HEAD", cwd=ROOT)[1].strip()
     json.dump(meta, open(os.path.join(dst, "meta.json"), "w"), indent=1)
     print("caught by:", meta["caught_by"])
     return 0
